@@ -178,6 +178,9 @@ func StrProps(propContainer map[string]object.PanObject) map[string]object.PanOb
 				n := nInt.Value
 
 				runes := []rune(self.Value)
+				if len(runes) == 0 {
+					return object.NewValueErr("\\1 must not be empty")
+				}
 				increasedRune := runes[len(runes)-1] + rune(n)
 				newRunes := append(runes[0:len(runes)-1], increasedRune)
 
